@@ -15,6 +15,7 @@
 #include "QXmppAttentionManager.h"
 #include "QXmppBlockingManager.h"
 #include "QXmppBookmarkManager.h"
+#include "QXmppBookmarkSet.h"
 #include "QXmppCallInviteManager.h"
 #include "QXmppCarbonManager.h"
 #include "QXmppCarbonManagerV2.h"
@@ -51,6 +52,9 @@
 
 #include <QCoreApplication>
 #include <QDomDocument>
+#include <QSslSocket>
+#include <QTcpServer>
+#include <QTcpSocket>
 #include <algorithm>
 #include <functional>
 #include <memory>
@@ -88,6 +92,22 @@ public:
         // "connected": authenticated, session started
         d->stream->d->sessionStarted = true;
         d->stream->d->isAuthenticated = true;
+    }
+    // really connect the client's socket to a local TCP server (plain TCP, the stream start is sent into it):
+    // socket writes succeed, a stream error really closes the stream
+    QTcpSocket *connectLoopback()
+    {
+        static QTcpServer *server = nullptr;
+        if (!server) {
+            server = new QTcpServer;
+            if (!server->listen(QHostAddress::LocalHost, 0)) { fprintf(stderr, "harness: cannot listen on loopback\n"); exit(3); }
+        }
+        auto *sock = d->stream->socket();
+        sock->connectToHost(QHostAddress(QHostAddress::LocalHost).toString(), server->serverPort());
+        if (!sock->waitForConnected(2000)) { fprintf(stderr, "harness: loopback connect failed\n"); exit(3); }
+        if (!server->hasPendingConnections() && !server->waitForNewConnection(2000)) { fprintf(stderr, "harness: loopback accept failed\n"); exit(3); }
+        d->stream->d->sessionStarted = true;
+        return server->nextPendingConnection();
     }
     // the entry point of real traffic: XmppSocket::stanzaReceived is connected to this slot
     void recvStream(const QDomElement &el) { d->stream->handlePacketReceived(el); }
@@ -443,9 +463,11 @@ struct Config {
 
 // ------------------------------------------------------------------------------------------------ running
 struct Built {
+    std::unique_ptr<QTcpSocket> peer;  // server side of the loopback connection (connected mode)
     std::unique_ptr<TestClient> c;
     vector<string> mgrs;
     QXmppRegistrationManager *reg = nullptr;
+    QXmppBookmarkManager *bm = nullptr;
 };
 
 static QDomElement parseStanza(const QString &xml, QDomDocument &doc)
@@ -470,12 +492,13 @@ static string attrOf(const QString &packet, const char *name, bool *present = nu
     return e.attribute(QString::fromLatin1(name)).toStdString();
 }
 
-static Built build(const vector<string> &order)
+static Built build(const vector<string> &order, bool connected = false)
 {
     Built b;
     b.c = std::make_unique<TestClient>();
     b.mgrs = order;
     TestClient *c = b.c.get();
+    if (connected) b.peer.reset(c->connectLoopback());
     // final extension list: probe0, m0, probe1, m1, ..., probe_n. Registration happens in dependency order,
     // each extension inserted at its final position.
     int n = order.size();
@@ -497,6 +520,7 @@ static Built build(const vector<string> &order)
         auto *e = mgrDef(order[i]).make(c);
         insertAt(2 * i + 1, e);
         if (order[i] == "registration") b.reg = static_cast<QXmppRegistrationManager *>(e);
+        if (order[i] == "bookmark") b.bm = static_cast<QXmppBookmarkManager *>(e);
         if (order[i] == "blocking+sub") {
             auto *bm = static_cast<QXmppBlockingManager *>(e);
             c->sent.clear();
@@ -520,6 +544,7 @@ struct FailAgg {
 static std::map<string, FailAgg> &fails() { static std::map<string, FailAgg> m; return m; }  // key without from: by:type:child
 
 static long cellsRun = 0;
+static bool wantSample = false;
 
 static void runCell(Built &b, const Cell &cell, Rng &rng, bool emitLine = true)
 {
@@ -541,13 +566,26 @@ static void runCell(Built &b, const Cell &cell, Rng &rng, bool emitLine = true)
     } else if (cell.id == "reg") {
         if (!b.reg) { fprintf(stderr, "harness bug: reg id without registration manager\n"); exit(3); }
         c->sent.clear();
-        switch (rng.below(3)) {
+        // (really connected: a result for deleteAccount makes the client log out — presence + stream end, not an IQ
+        // reply and not part of the model — so that request kind is only used on the unconnected client)
+        switch (rng.below(b.peer ? 2 : 3)) {
         case 0: b.reg->changePassword(QStringLiteral("pw2")); break;
-        case 1: b.reg->deleteAccount(); break;
+        case 2: b.reg->deleteAccount(); break;
         default: b.reg->sendCachedRegistrationForm(); break;
         }
         idAttr = c->sent.isEmpty() ? "" : attrOf(c->sent.first(), "id");
         if (idAttr.empty()) { fprintf(stderr, "harness bug: no registration request id\n"); exit(3); }
+    }
+    else if (cell.id == "bm") {
+        // QXmppBookmarkManager::setBookmarks records its pending id only when the socket write succeeded
+        if (!b.bm || !b.peer) { fprintf(stderr, "harness bug: bm id needs a connected client with the bookmark manager\n"); exit(3); }
+        c->sent.clear();
+        QXmppBookmarkSet set;
+        QXmppBookmarkUrl url; url.setName(QStringLiteral("u")); url.setUrl(QUrl(QStringLiteral("http://x.example/")));
+        set.setUrls({ url });
+        if (!b.bm->setBookmarks(set)) { fprintf(stderr, "harness bug: setBookmarks failed\n"); exit(3); }
+        idAttr = c->sent.isEmpty() ? "" : attrOf(c->sent.first(), "id");
+        if (idAttr.empty()) { fprintf(stderr, "harness bug: no bookmark request id\n"); exit(3); }
     }
     string typeAttr = typeSpelling(cell.type, rng), fromAttr = fromSpelling(cell.from, cell.id, rng);
     string xml = "<iq";
@@ -591,6 +629,7 @@ static void runCell(Built &b, const Cell &cell, Rng &rng, bool emitLine = true)
     string sentDump;
     for (auto &pkt : c->sent) {
         if (pkt == QStringLiteral("<r xmlns=\"urn:xmpp:sm:3\"/>")) continue;
+        if (pkt == QStringLiteral("</stream:stream>") && c->errors) continue;  // connected mode: the stream error closes the stream
         sentDump += pkt.toStdString() + " ";
         QDomDocument d;
         if (!d.setContent(pkt, true)) { otherSent++; continue; }
@@ -611,6 +650,7 @@ static void runCell(Built &b, const Cell &cell, Rng &rng, bool emitLine = true)
     if (otherSent) obs += " x=" + std::to_string(otherSent);   // the model never predicts other traffic
     string op = string("iq ") + (cell.enc ? "e" : "s") + " " + cell.type + " " + cell.from + " " + cell.id + " " + kids;
     if (emitLine) corr(op, obs);
+    if (wantSample) sample(xml + "  =>  " + obs + "   [model op: " + op + "]");
     cellsRun++;
     stat("cells");
     stat("decided_by." + by);
@@ -638,6 +678,7 @@ static void runCell(Built &b, const Cell &cell, Rng &rng, bool emitLine = true)
     auto kb = cell.p->keyBy.find(by);
     if (kb != cell.p->keyBy.end()) child = kb->second;
     if (cell.id == "reg" && by == "registration") child = "pending-registration-id";
+    if (cell.id == "bm" && by == "bookmark") child = "pending-bookmark-id";
     string k = by + ":" + cell.type + ":" + child;
     auto &agg = fails()[k];
     agg.count++;
@@ -659,7 +700,7 @@ static vector<const Payload *> payloadsFor(const vector<Payload> &cat, const Con
     return v;
 }
 
-static void runConfig(const Config &cfg, const vector<Payload> &cat, bool fullCatalogue, bool thorough, Rng &rng, int freshEvery)
+static void runConfig(const Config &cfg, const vector<Payload> &cat, bool fullCatalogue, bool thorough, Rng &rng, int freshEvery, bool connected = false)
 {
     string l;
     for (auto &m : cfg.mgrs) l += (l.empty() ? "" : ",") + m;
@@ -667,8 +708,9 @@ static void runConfig(const Config &cfg, const vector<Payload> &cat, bool fullCa
     fflush(stdout);
     corr("reset " + (l.empty() ? string("-") : l), "ok");
     bool hasReg = std::find(cfg.mgrs.begin(), cfg.mgrs.end(), "registration") != cfg.mgrs.end();
+    bool hasBm = connected && std::find(cfg.mgrs.begin(), cfg.mgrs.end(), "bookmark") != cfg.mgrs.end();
     auto pls = payloadsFor(cat, cfg, fullCatalogue);
-    Built b = build(cfg.mgrs);
+    Built b = build(cfg.mgrs, connected);
     int sinceFresh = 0;
     std::set<string> ms(cfg.mgrs.begin(), cfg.mgrs.end());
     for (auto *p : pls) {
@@ -683,21 +725,23 @@ static void runConfig(const Config &cfg, const vector<Payload> &cat, bool fullCa
                     if (from == "none" || from == "other" || thorough || rng.below(4) == 0) ids.push_back("table");
                 }
                 if (hasReg && (p->name == "unknown" || p->name == "vCard.min" || p->name == "register.min" || p->name == "none")) ids.push_back("reg");
+                if (hasBm && (p->name == "unknown" || p->name == "vCard.min" || p->name == "private-bookmarks.min" || p->name == "none")) ids.push_back("bm");
                 for (auto &id : ids) {
                     for (int enc = 0; enc < 2; enc++) {
                         if (enc && !(own || thorough || p->owners.empty()) && rng.below(3)) continue;
-                        bool stateful = id == "table" || id == "reg";
-                        if (stateful || sinceFresh >= freshEvery) { b = build(cfg.mgrs); sinceFresh = 0; }
+                        bool stateful = id == "table" || id == "reg" || id == "bm";
+                        if (stateful || sinceFresh >= freshEvery) { b = Built(); b = build(cfg.mgrs, connected); sinceFresh = 0; }
                         Cell cell { enc == 1, type, from, id, p };
                         runCell(b, cell, rng);
                         sinceFresh++;
-                        if (stateful) { b = build(cfg.mgrs); sinceFresh = 0; }
+                        if (stateful) { b = Built(); b = build(cfg.mgrs, connected); sinceFresh = 0; }
                     }
                 }
             }
         }
     }
     stat("configs");
+    if (connected) stat("configs_really_connected");
 }
 
 int main(int argc, char **argv)
@@ -720,8 +764,10 @@ int main(int argc, char **argv)
         Built b = build(c.mgrs);
         const Payload *vc = nullptr, *ro = nullptr;
         for (auto &p : cat) { if (p.name == "vCard.min") vc = &p; if (p.name == "roster.min") ro = &p; }
-        for (auto t : { "get", "set" }) for (auto &f : FROMS) { Cell cell { false, t, f, "fresh", vc }; runCell(b, cell, rng); }
-        for (auto &f : FROMS) { Cell cell { false, "get", f, "fresh", ro }; runCell(b, cell, rng); }
+        for (auto t : { "get", "set" }) for (auto &f : FROMS) { wantSample = f == "other"; Cell cell { false, t, f, "fresh", vc }; runCell(b, cell, rng); }
+        wantSample = false;
+        for (auto &f : FROMS) { wantSample = f == "none" || f == "other"; Cell cell { false, "get", f, "fresh", ro }; runCell(b, cell, rng); }
+        wantSample = false;
     }
 
     int freshEvery = thorough ? 1 : 1;
@@ -736,6 +782,11 @@ int main(int argc, char **argv)
     }
     // the default set of QXmppClient
     runConfig({ "default", { "roster", "vcard", "version", "entityTime", "discovery" } }, cat, true, thorough, rng, freshEvery);
+    // the same over a really connected socket (loopback TCP): replies are written to the socket, a stream error closes
+    // the stream; also the only way to give the bookmark manager an outstanding request id
+    runConfig({ "default-connected", { "roster", "vcard", "version", "entityTime", "discovery" } }, cat, thorough, thorough, rng, 1, true);
+    runConfig({ "bookmark-connected", { "bookmark", "vcard" } }, cat, false, thorough, rng, 1, true);
+    runConfig({ "bookmark-connected2", { "vcard", "registration", "bookmark" } }, cat, false, thorough, rng, 1, true);
     // everything together, in several registration orders
     int nperm = thorough ? 6 : 2;
     for (int i = 0; i <= nperm; i++) {
